@@ -29,3 +29,25 @@ Theorem C14_string_literal_roundtrip : forall (esc_u : N -> bool) (s rest : str)
   js_string_decode (gen_lit_str esc_u s ++ rest) = Some (s, rest).
 Proof. exact lit_str_roundtrip. Qed.
 Print Assumptions C14_string_literal_roundtrip.
+
+(* ---- the stringifier's expression printer (Model/StrExpr.v = stringify/expr.rs + the value
+   splitting of stringify/tag.rs, tied to the implementation by text correspondence) ---- *)
+From GE Require Import Model.StrExpr Proofs.StrExprProofs.
+
+(* operand accept levels are those of a stratified left-associative grammar: same level on the
+   left, one level tighter on the right, for every binary operator incl. ?? *)
+Theorem C14_printer_tables_ok : forall op, sx_left op = sx_binop_level op /\ (sx_right op + 1 = sx_binop_level op)%N.
+Proof. exact sx_tables_ok. Qed.
+Print Assumptions C14_printer_tables_ok.
+
+(* an operand is parenthesised exactly when its level is looser than the position accepts *)
+Theorem C14_printer_paren_decision : forall names lit_str e a,
+  sx_print names lit_str e a = paren_if (N.ltb a (sx_level e)) (sx_print names lit_str e L_Cond).
+Proof. exact sx_paren_decision. Qed.
+Print Assumptions C14_printer_paren_decision.
+
+(* a text piece of mixed text followed by the `{{` of a binding: no binding start is created before
+   that `{{`, whatever the text (in particular when it ends in `{`) *)
+Theorem C14_text_piece_then_binding : forall s, has_double_lbrace (text_piece false s ++ [123%N]) = false.
+Proof. exact text_piece_then_binding. Qed.
+Print Assumptions C14_text_piece_then_binding.
